@@ -115,6 +115,28 @@ func c10Catalogue() []c10Offence {
 		{"connection-window-overflow", []uint32{eFlow}, func(rng *rand.Rand, p *rt.Peer, next, open uint32) []byte {
 			return append(rt.WindowUpdate(0, 1<<31-1), rt.WindowUpdate(0, 1<<31-1)...)
 		}},
+		{"rst-stream-on-idle-stream", []uint32{eProtocol}, func(rng *rand.Rand, p *rt.Peer, next, open uint32) []byte { return rt.RstStream(next, 8) }},
+		{"window-update-on-idle-stream", []uint32{eProtocol}, func(rng *rand.Rand, p *rt.Peer, next, open uint32) []byte { return rt.WindowUpdate(next, 10) }},
+		{"data-on-idle-stream", []uint32{eProtocol}, func(rng *rand.Rand, p *rt.Peer, next, open uint32) []byte {
+			return raw(wire.TData, wire.FEndStream, next, []byte("idle"))
+		}},
+		{"priority-depends-on-itself", []uint32{eProtocol}, func(rng *rand.Rand, p *rt.Peer, next, open uint32) []byte {
+			sid := next
+			if open != 0 && rng.Intn(2) == 0 {
+				sid = open
+			}
+			return rt.Priority(sid, sid, false, 3)
+		}},
+		{"data-on-closed-stream", []uint32{eClosed, eProtocol}, func(rng *rand.Rand, p *rt.Peer, next, open uint32) []byte {
+			// open and finish a stream, then send DATA on it
+			a := rt.Concat(rt.HeaderFrames(next, reqBlock(p, next, "closedthen"), nil, -1, nil, true))
+			return append(a, raw(wire.TData, 0, next, []byte("late"))...)
+		}},
+		{"data-on-an-old-answered-stream", []uint32{eClosed, eProtocol}, func(rng *rand.Rand, p *rt.Peer, next, open uint32) []byte {
+			// stream 1 is always the oldest stream of the connection; if it was answered this is DATA on a closed stream,
+			// otherwise (nothing before, or stream 1 still open) it is simply more traffic and the scenario degenerates
+			return raw(wire.TData, 0, 1, []byte("late data on the first stream"))
+		}},
 		{"undecodable-header-block", []uint32{eCompress}, func(rng *rand.Rand, p *rt.Peer, next, open uint32) []byte {
 			bad := [][]byte{{0x80}, {0xff, 0xff, 0xff, 0xff, 0xff, 0xff, 0xff, 0xff, 0xff, 0xff, 0xff, 0x01}, {0xbf, 0x7f}, {0x00, 0x85, 'a'}, {0x3f, 0xe1, 0xff, 0x7f}}[rng.Intn(5)]
 			return raw(wire.THeaders, wire.FEndHeaders|wire.FEndStream, next, bad)
@@ -151,6 +173,15 @@ func c10Scenario(r *vf.Run, t *testing.T, id string, rng *rand.Rand, cat []c10Of
 	for i := range states {
 		states[i] = rng.Intn(3) // 0 answered, 1 parked, 2 incomplete (no END_STREAM yet)
 	}
+	if off.Name == "data-on-an-old-answered-stream" {
+		if nBefore == 0 {
+			nBefore, states = 1, []int{0}
+		}
+		states[0] = 0
+		if nBefore > 1 && rng.Intn(2) == 0 {
+			states[nBefore-1] = 2 // the highest stream is still being received when the offence arrives
+		}
+	}
 	var triggers []string
 	replay := map[string]any{"offence": off.Name, "idle_timeout_instead": idle, "before": states, "after": nAfter, "trailing": trailing}
 	failed := false
@@ -174,6 +205,7 @@ func c10Scenario(r *vf.Run, t *testing.T, id string, rng *rand.Rand, cat []c10Of
 		next := uint32(1)
 		var openIncomplete uint32
 		incomplete := map[uint32]bool{}
+		parkedIDs := map[uint32]bool{}
 		var parked []chan struct{}
 		sent := map[uint32]string{}
 		for i := 0; i < nBefore; i++ {
@@ -185,6 +217,7 @@ func c10Scenario(r *vf.Run, t *testing.T, id string, rng *rand.Rand, cat []c10Of
 			case 1:
 				g := e.H.NewGate()
 				parked = append(parked, g)
+				parkedIDs[next] = true
 				e.H.SetPlan(tag, &rt.RespPlan{Status: 200, Body: []byte("late"), Gate: g})
 				e.P.Write(rt.Concat(rt.HeaderFrames(next, blk, nil, -1, nil, true)))
 			case 2:
@@ -249,16 +282,24 @@ func c10Scenario(r *vf.Run, t *testing.T, id string, rng *rand.Rand, cat []c10Of
 			e.PeerConn.Close()
 		}
 		rt.Wait()
-		// requests the peer never completed cannot "finish" unless the peer gives them up
+		// requests the peer never completed cannot "finish" unless the peer completes them or gives them up;
+		// it may also give up requests whose handlers are still running
 		if trailing != 3 {
-			var cancel []byte
+			var more []byte
 			for sid := uint32(1); sid < next; sid += 2 {
 				if incomplete[sid] {
-					cancel = append(cancel, rt.RstStream(sid, 8)...)
+					if rng.Intn(2) == 0 {
+						more = append(more, rt.RstStream(sid, 8)...)
+					} else {
+						more = append(more, wire.Frame(nil, wire.TData, wire.FEndStream, sid, []byte("the rest"), -1)...)
+					}
+				}
+				if parkedIDs[sid] && rng.Intn(3) == 0 {
+					more = append(more, rt.RstStream(sid, 8)...)
 				}
 			}
-			if len(cancel) > 0 {
-				e.P.Write(cancel)
+			if len(more) > 0 {
+				e.P.Write(more)
 				rt.Wait()
 			}
 		}
